@@ -3,15 +3,15 @@ import json
 import sys
 
 
-def views(m, queries):
-    from chython import smarts
+def views(m, queries, order=None):
+    """every view of m; order: None = as listed, 'rev' = reversed, an int = shuffled with that seed.  The value of a view must not
+    depend on which other views were evaluated before it (what is cached), so all orders must agree."""
+    import random
+    todo = []
     out = {}
 
     def put(name, f):
-        try:
-            out[name] = f()
-        except Exception as e:
-            out[name] = 'raise:' + type(e).__name__
+        todo.append((name, f))
     put('str', lambda: str(m))
     put('atoms_order', lambda: sorted(m.atoms_order.items()))
     put('smiles_atoms_order', lambda: list(m.smiles_atoms_order))
@@ -22,9 +22,23 @@ def views(m, queries):
     put('linear_bits', lambda: sorted(m.linear_bit_set(min_radius=1, max_radius=4, length=1024)))
     put('morgan_bits', lambda: sorted(m.morgan_bit_set(min_radius=1, max_radius=3, length=1024)))
     for k, q in enumerate(queries):
-        put(f'mapping-list:{k}', lambda: [sorted(mp.items()) for mp in q.get_mapping(m, automorphism_filter=False)][:200])
-        put(f'mapping-filtered:{k}', lambda: [sorted(mp.items()) for mp in q.get_mapping(m)][:200])
+        put(f'mapping-list:{k}', lambda q=q: [sorted(mp.items()) for mp in q.get_mapping(m, automorphism_filter=False)][:200])
+        put(f'mapping-filtered:{k}', lambda q=q: [sorted(mp.items()) for mp in q.get_mapping(m)][:200])
     put('pack', lambda: list(m.pack(compressed=False)))
+    half = set(list(m._atoms)[:max(1, len(m._atoms) // 2)])
+    for k, q in enumerate(queries[:3]):
+        put(f'mapping-scoped:{k}', lambda q=q: [sorted(mp.items()) for mp in q.get_mapping(m, automorphism_filter=False, searching_scope=half)][:200])
+    put('split', lambda: sorted(str(x) for x in m.split()))
+    put('eq-copy', lambda: [m == m.copy(), hash(m) == hash(m.copy())])
+    if order == 'rev':
+        todo.reverse()
+    elif isinstance(order, int):
+        random.Random(order).shuffle(todo)
+    for name, f in todo:
+        try:
+            out[name] = f()
+        except Exception as e:
+            out[name] = 'raise:' + type(e).__name__
     return out
 
 
@@ -45,6 +59,10 @@ def main():
         first = views(m, queries)
         second = views(m, queries)
         third = views(m.copy(), queries)
+        rev = views(m.copy(), queries, 'rev')
+        mixed = m.copy()
+        shuf = views(mixed, queries, len(smi) * 7 + 3)
+        after = views(mixed, queries)
         c = m.copy()
         try:
             c.canonicalize()
@@ -57,7 +75,7 @@ def main():
             std = str(s)
         except Exception as e:
             std = 'raise:' + type(e).__name__
-        for call, vs in (('first', first), ('second', second), ('copy', third)):
+        for call, vs in (('first', first), ('second', second), ('copy', third), ('reversed-order', rev), ('shuffled-order', shuf), ('after-shuffled', after)):
             for v, val in vs.items():
                 print(json.dumps({'input': smi, 'view': v, 'proc': f'{tag}/{call}', 'val': val}))
         print(json.dumps({'input': smi, 'view': 'canonicalize', 'proc': tag, 'val': canon}))
